@@ -127,7 +127,7 @@ def main():
     from harness.drivers.forking import run_forking
     run_forking(chk, PID, "c17")
     chk.assumptions += ["real sockets, threads and processes: conditions are awaited with deadlines (4 s), outcomes classified by kind",
-                        "client request timeout 4 s: a client of a closed server must see end-of-stream, not that timeout"]
+                        "client request timeout 8 s: a client of a closed server must see end-of-stream, not that timeout"]
     chk.assumptions += ["schedules at statement granularity are forced with sys.monitoring breakpoints on the real server threads; one thread "
                         "is held inside a window while one other operation runs to completion"]
     return chk.finish(rule="evaluations = steps of TLC paths executed against real servers + window scenarios; distinct = (flavour, "
